@@ -1399,9 +1399,69 @@ fn run_stdlib_model(ops: &[Op], variant: u64) {
 //   closure and, unless open upvalues are roots, its upvalue object, which is still linked in the open list), then
 //   creates another closure over `a` -- which walks that list.  Child process under valgrind.
 fn upvalue_list_scenario(ops: &[Op]) {
-    let kind = ops[0].0 % 7;
+    let kind = ops[0].0 % 11;
     let closure = |cards: Vec<Card>| -> Card { CardBody::Closure(Box::new(Function::default().with_cards(cards))).into() };
     let bin = |a: Card, b: Card| cao_lang::compiler::BinaryExpression::new([a, b]);
+    if kind >= 7 {
+        // 7: a counter closure called three times after its creator returned (write + read through a closed upvalue)
+        // 8: two closures over one variable: `inc` called twice (once while the variable is on the stack, once after it was
+        //    closed), then `get` (shared identity)
+        // 9: a closure that creates a closure over a variable of the outermost function (inherited upvalue), called last
+        // 10: a closure writes a local while its function is still running; the function reads the local afterwards
+        let set = |n: &str, v: Card| Card::set_var(n, v);
+        let incr = |n: &str| Card::set_var(n, CardBody::Add(bin(Card::read_var(n), Card::scalar_int(1))));
+        let (fns, want): (Vec<(String, Function)>, i64) = match kind {
+            7 => (vec![
+                ("make".to_string(), Function::default().with_cards(vec![set("n", Card::scalar_int(0)), Card::return_card(closure(vec![incr("n"), Card::return_card(Card::read_var("n"))]))])),
+                ("main".to_string(), Function::default().with_cards(vec![
+                    Card::set_global_var("c", Card::call_function("make", vec![])),
+                    Card::set_global_var("junk", Card::dynamic_call(Card::read_var("c"), vec![])),
+                    Card::set_global_var("junk", Card::dynamic_call(Card::read_var("c"), vec![])),
+                    Card::set_global_var("g", Card::dynamic_call(Card::read_var("c"), vec![])),
+                ])),
+            ], 3),
+            8 => (vec![
+                ("make".to_string(), Function::default().with_cards(vec![
+                    set("n", Card::scalar_int(40)),
+                    Card::set_global_var("inc", closure(vec![incr("n")])),
+                    set("get", closure(vec![Card::return_card(Card::read_var("n"))])),
+                    Card::dynamic_call(Card::read_var("inc"), vec![]),
+                    Card::return_card(Card::read_var("get")),
+                ])),
+                ("main".to_string(), Function::default().with_cards(vec![
+                    Card::set_global_var("get", Card::call_function("make", vec![])),
+                    Card::dynamic_call(Card::read_var("inc"), vec![]),
+                    Card::set_global_var("g", Card::dynamic_call(Card::read_var("get"), vec![])),
+                ])),
+            ], 42),
+            9 => (vec![
+                ("outer".to_string(), Function::default().with_cards(vec![
+                    set("pad", Card::scalar_int(1)), set("a", Card::scalar_int(55)),
+                    Card::return_card(closure(vec![Card::return_card(closure(vec![Card::return_card(Card::read_var("a"))]))])),
+                ])),
+                ("main".to_string(), Function::default().with_cards(vec![
+                    Card::set_global_var("m", Card::call_function("outer", vec![])),
+                    Card::set_global_var("i", Card::dynamic_call(Card::read_var("m"), vec![])),
+                    Card::set_global_var("g", Card::dynamic_call(Card::read_var("i"), vec![])),
+                ])),
+            ], 55),
+            _ => (vec![
+                ("main".to_string(), Function::default().with_cards(vec![
+                    set("pad", Card::scalar_int(9)), set("a", Card::scalar_int(1)),
+                    set("c", closure(vec![set("a", Card::scalar_int(2))])),
+                    Card::dynamic_call(Card::read_var("c"), vec![]),
+                    Card::set_global_var("g", CardBody::Add(bin(Card::read_var("a"), CardBody::Mul(bin(Card::read_var("pad"), Card::scalar_int(10))).into()))),
+                ])),
+            ], 92),
+        };
+        let program = compile(Module { functions: fns, ..Default::default() }, None).unwrap();
+        let mut vm = Vm::new(()).unwrap();
+        let r = vm.run(&program);
+        let g = vm.read_var_by_name("g", &program.variables).and_then(|v| v.as_int());
+        println!("CHILD finished: {:?}, g = {g:?}, expected {want} (scenario {kind})", r.as_ref().map(|_| ()).map_err(|e| &e.payload));
+        if g != Some(want) { std::process::exit(3); }
+        return;
+    }
     if kind == 6 {
         let module = Module {
             functions: vec![
@@ -1465,7 +1525,11 @@ fn upvalue_list_scenario(ops: &[Op]) {
 fn run_upvalue_list(ops: &[Op]) {
     if std::env::var("CAO_REPLAY_CHILD").is_ok() { upvalue_list_scenario(ops); return; }
     if let Some(what) = run_child("upvalue_list", ops) {
-        if ops[0].0 % 7 == 6 {
+        if ops[0].0 % 11 >= 7 {
+            let what2 = ["a counter closure (n = n + 1; return n) called three times after its creator returned, expected 3", "inc and get over one variable (40): inc() inside make, inc() after make returned, then get(), expected 42", "outer { a = 55; return || (|| a) }: the innermost closure inherits the upvalue, expected 55", "main { pad = 9; a = 1; c = || { a = 2 }; c(); g = a + pad * 10 }, expected 92"][(ops[0].0 % 11 - 7) as usize];
+            fail("upvalue_list", ops, 0, format!("{what2}: {what}"));
+        }
+        if ops[0].0 % 11 == 6 {
             fail("upvalue_list", ops, 0, format!("make {{ a = 10; tmp = || a; tmp = nil; (allocate on a 32 KiB heap); return || a }}; main {{ c = make(); g = c() }}: {what} (the dropped closure's upvalue is still in the list of open upvalues)"));
         }
         fail("upvalue_list", ops, 0, format!("make {{ v0 = 10; v1 = 20; v2 = 30; v3 = 40; return || (the four variables, captured in a given order) }}; main {{ c = make(); clobber(); g = c() }}, expected g = 10203040: {what}"));
@@ -1522,7 +1586,7 @@ fn main() {
         return;
     }
     if unit == "upvalue_list" {
-        for kind in 0..7u8 { dispatch(unit, &[(kind, 2, 0)], 0); }
+        for kind in 0..11u8 { dispatch(unit, &[(kind, 2, 0)], 0); }
         println!("OK captured variables survived their function's return and the open-upvalue list stayed intact");
         return;
     }
